@@ -186,6 +186,12 @@ impl Allocator {
     }
 
     fn manage_state(gc: &mut BoaGc) {
+        #[cfg(boa_verif)]
+        if verif::stress() {
+            // Verification hook: collect before every allocation.
+            Collector::collect(gc);
+            return;
+        }
         if gc.runtime.bytes_allocated > gc.config.threshold {
             Collector::collect(gc);
 
@@ -539,6 +545,51 @@ pub fn force_collect() {
             Collector::collect(&mut gc);
         }
     });
+}
+
+/// Verification hooks (`--cfg boa_verif`).
+#[cfg(boa_verif)]
+pub mod verif {
+    use super::BOA_GC;
+    use std::cell::Cell;
+
+    thread_local! {
+        static STRESS: Cell<bool> = const { Cell::new(false) };
+    }
+
+    /// Collect before every allocation on this thread while set.
+    pub fn set_stress(on: bool) {
+        STRESS.with(|s| s.set(on));
+    }
+
+    pub(crate) fn stress() -> bool {
+        STRESS.with(Cell::get)
+    }
+
+    /// Sets the allocation threshold of this thread's collector: with `0` every allocation is
+    /// preceded by a collection. Returns the previous value.
+    pub fn set_threshold(threshold: usize) -> usize {
+        BOA_GC.with(|current| {
+            let mut gc = current.borrow_mut();
+            std::mem::replace(&mut gc.config.threshold, threshold)
+        })
+    }
+
+    /// `(strong boxes, ephemeron boxes, weak maps, bytes allocated, collections so far)` of this
+    /// thread's collector.
+    #[must_use]
+    pub fn stats() -> (usize, usize, usize, usize, usize) {
+        BOA_GC.with(|current| {
+            let gc = current.borrow();
+            (
+                gc.strongs.len(),
+                gc.weaks.len(),
+                gc.weak_maps.len(),
+                gc.runtime.bytes_allocated,
+                gc.runtime.collections,
+            )
+        })
+    }
 }
 
 #[cfg(test)]
